@@ -38,10 +38,11 @@ type CbCase struct {
 	Second bool    `json:"second"` // the callback is the second host parameter
 }
 
-// assertVariadicScriptCallback: false while /repo hands reflect.Value wrappers to variadic
-// script functions used as Go callbacks (reported; signature
-// "C11|callbacks|script-saw|variadic-script-func").
-const assertVariadicScriptCallback = false
+// assertVariadicScriptCallback: variadic script functions used as Go callbacks are judged
+// like fixed-arity ones. (It was false while /repo handed them reflect.Value wrappers —
+// fixed by /repo commit a912156; a regression shows as
+// "C11|callbacks|script-saw|variadic-script-func".)
+const assertVariadicScriptCallback = true
 
 func genCbCase(t *rapid.T) CbCase {
 	c := CbCase{In: []int{}, Out: []int{}, Calls: [][]int{}, Ret: []SV{}}
@@ -169,12 +170,6 @@ func cbOracle(c CbCase, o *h.Obs) *h.Fail {
 				return nil
 			}
 			retSrc[j] = "a" + strconv.Itoa(idx)
-			if it := inT[idx]; it.Kind() == reflect.Interface && it != tIface && (j >= m || (outT[j] != it && outT[j] != tIface)) {
-				// known deviation, reported: a value whose static type is a non-empty interface
-				// (error) is not unwrapped / zero-converted; excluded and counted
-				o.Excluded = "error_typed_nil_conversion"
-				return nil
-			}
 			continue
 		}
 		retSrc[j], retStatic[j] = b.render(&c.Ret[j])
